@@ -73,17 +73,25 @@ fn main() {
     // before anything is reported, every finding is re-executed twice and must repeat exactly:
     // a violation that does not reproduce is a machinery problem, not a verdict
     for f in found.iter().take(40) {
+        let mut repeats = true;
         for round in 0..2 {
             match plans::reproduce(&prop, &f.sig, f.profile, &f.history, &f.extra, false, tier == "quick") {
                 Ok(true) => {}
-                Ok(false) => report.machinery_errors.push(format!("finding {} did not reproduce on re-execution #{}", f.sig, round + 1)),
-                Err(e) => report.machinery_errors.push(format!("finding {} could not be re-executed: {e}", f.sig)),
+                Ok(false) => {
+                    repeats = false;
+                    report.machinery_errors.push(format!("finding {} did not reproduce on re-execution #{}", f.sig, round + 1));
+                }
+                Err(e) => {
+                    repeats = false;
+                    report.machinery_errors.push(format!("finding {} could not be re-executed: {e}", f.sig));
+                }
             }
         }
-    }
-    for f in found.iter().take(40) {
-        let path = write_replay(&replay_dir, "seqmc", f, &tier);
-        with_paths.push((f.clone(), path));
+        // only findings that repeat are reported as violations
+        if repeats {
+            let path = write_replay(&replay_dir, "seqmc", f, &tier);
+            with_paths.push((f.clone(), path));
+        }
     }
     let ev = report.to_json(t0.elapsed().as_secs_f64(), &with_paths);
     if let Some(dir) = std::path::Path::new(&out).parent() {
@@ -94,11 +102,14 @@ fn main() {
     for (f, path) in &with_paths {
         println!("FINDING property={} signature={} replay={} :: {}", f.prop, f.sig, path, f.detail);
     }
-    if !report.machinery_errors.is_empty() {
-        for e in &report.machinery_errors {
-            eprintln!("MACHINERY: {e}");
-        }
-        std::process::exit(2);
+    for e in &report.machinery_errors {
+        eprintln!("MACHINERY: {e}");
     }
-    std::process::exit(if with_paths.is_empty() { 0 } else { 1 });
+    // a confirmed (twice re-executed) violation is a verdict even if some other observation of
+    // the same run did not repeat; with nothing confirmed, a non-repeating observation makes the
+    // run a machinery failure, never a pass
+    if !with_paths.is_empty() {
+        std::process::exit(1);
+    }
+    std::process::exit(if report.machinery_errors.is_empty() { 0 } else { 2 });
 }
